@@ -43,7 +43,7 @@ const sensorIP = "192.0.2.1"
 
 func genC04(seed uint64, idx int, tier string) *Scenario {
 	r := NewRng(seed, "c04")
-	names := protoNames
+	names := activeProtos()
 	pn := names[idx%len(names)]
 	p := protoTable[pn]
 	sc := &Scenario{Engine: "dialogue", Params: map[string]interface{}{"proto": pn}}
@@ -117,6 +117,17 @@ func genC04(seed uint64, idx int, tier string) *Scenario {
 	sc.Class = pn + "/" + class
 	sc.Actors = []Actor{a}
 	sc.Schedule = r.Schedule(4)
+	if p.UDP {
+		// datagrams: one per step, or several released in the same step (batch bit)
+		sc.Schedule = r.Schedule(len(a.Ops) + 2)
+		if r.Chance(0.5) {
+			for i := range sc.Schedule {
+				if r.Chance(0.5) {
+					sc.Schedule[i] |= 1 << 16
+				}
+			}
+		}
+	}
 	sc.DrainMs = 1000
 	return sc
 }
@@ -124,6 +135,9 @@ func genC04(seed uint64, idx int, tier string) *Scenario {
 // baselineOf strips every segmentation decision: one command per segment, lock-step, no gaps.
 func baselineOf(sc *Scenario) *Scenario {
 	b := sc.Clone()
+	for i := range b.Schedule {
+		b.Schedule[i] &= 0xffff
+	}
 	for ai := range b.Actors {
 		var ops []Op
 		for _, o := range b.Actors[ai].Ops {
@@ -140,6 +154,11 @@ func baselineOf(sc *Scenario) *Scenario {
 }
 
 func isSegmented(sc *Scenario) bool {
+	for _, v := range sc.Schedule {
+		if v&(1<<16) != 0 {
+			return true
+		}
+	}
 	for _, a := range sc.Actors {
 		for _, o := range a.Ops {
 			if len(o.Cuts) > 0 || o.Join {
